@@ -3,5 +3,6 @@ import Phil.Tok
 import Phil.TypeExpr
 import Phil.Parse
 import Phil.Show
+import Phil.Conv
 import Phil.Wire
 import Phil.Codec
